@@ -471,5 +471,27 @@ def _r7_r8(chk: Check, sf: Surface) -> None:
             core = core[3][1]
         if not (isinstance(core, tuple) and core[:1] == ('attr',) and lx is not None and core[1] == lx):
             problems.append('a path that ran the parser returns %s, not the tree the grammar actions left on the lexer' % show(ret))
+    # ... and the LALR run is never derailed: yacc.py wraps every action call in `except SyntaxError`, and on catching one it
+    # enters error recovery *without* calling p_error (and keeps it muted for the next three tokens); with no `error`
+    # productions in the grammar the recovery throws the stack away and resumes on the rest of the text.  A SyntaxError raised
+    # by an action - or by a node constructor it calls - therefore parses a *part* of the text instead of rejecting it.
+    import ast as _ast
+    raisers = []
+    for m_ in F.modules.values():
+        if '.ply' in m_.name:
+            continue
+        for n_ in _ast.walk(m_.tree):
+            if isinstance(n_, _ast.Raise) and n_.exc is not None:
+                tgt_ = n_.exc.func if isinstance(n_.exc, _ast.Call) else n_.exc
+                r_ = F.resolve_expr(m_, tgt_)
+                syn = r_[0] == 'builtin' and r_[1] in ('SyntaxError', 'IndentationError', 'TabError')
+                if r_[0] == 'cls' and r_[1] in F.classes:
+                    syn = any(b in ('SyntaxError', 'IndentationError', 'TabError') for b in F.ext_bases(r_[1]))
+                if syn:
+                    raisers.append('%s:%d' % (m_.rel, n_.lineno))
+    chk.require(not raisers, R8, 'no SyntaxError inside the parser run', raisers[0] if raisers else sf.g.module.rel,
+                'raise SyntaxError at %s: PLY catches SyntaxError around every grammar action and enters silent error recovery (no p_error, '
+                'stack discarded), so the text is neither rejected nor parsed to its tree' % ', '.join(raisers) if raisers else
+                'no code of the package raises SyntaxError (PLY would treat it as a request for error recovery)')
     chk.require(not problems and n, R8, q, fi.where, '; '.join(sorted(set(problems))[:3]) or
                 '%d returning path(s): cached tree or the result of the yacc run' % n)
